@@ -29,7 +29,7 @@ Print Assumptions C16_excel_resource_view.
 Theorem C16_excel_task_view : forall s,
   (forall t, In t (so_tasks s) -> 1 <= ts_end t - ts_start t) ->
   map bar_decode (task_sheet s)
-  = map (fun '(i, t) => (S i, join "," (ts_assigned t), ts_start t, ts_end t)) (indexed 0 (so_tasks s)).
+  = map (fun '(i, t) => (S i, join "," (map resobj_name (ts_assigned t)), ts_start t, ts_end t)) (indexed 0 (so_tasks s)).
 Proof. exact task_sheet_roundtrip. Qed.
 Print Assumptions C16_excel_task_view.
 
